@@ -1,0 +1,306 @@
+//go:build verif
+
+// Verification hooks for the raft package (build tag "verif" only; add-only).
+// Nothing here changes the behaviour of existing code paths except
+// VerifSetRand, which replaces the source behind globalRand so that a
+// single-threaded test driver can choose the randomized election timeout.
+
+package raft
+
+import (
+	"fmt"
+	"math/rand"
+	"sort"
+	"sync/atomic"
+
+	pb "github.com/youzan/ZanRedisDB/raft/raftpb"
+)
+
+// verifSource is a rand.Source whose Int63 makes rand.Rand.Intn(n) return
+// the chosen value k (k < n): Intn -> Int31n -> Int31() = Int63()>>32.
+type verifSource struct{ v uint32 }
+
+func (s *verifSource) Int63() int64 {
+	return int64(atomic.LoadUint32(&s.v)&0x7fffffff) << 32
+}
+func (s *verifSource) Seed(int64) {}
+
+var verifSrc *verifSource
+
+// VerifSetRand makes every later globalRand.Intn(n) return k mod n
+// (sticky until the next call). Used to choose randomizedElectionTimeout.
+func VerifSetRand(k uint32) {
+	if verifSrc == nil {
+		verifSrc = &verifSource{}
+		globalRand.mu.Lock()
+		globalRand.rand = rand.New(verifSrc)
+		globalRand.mu.Unlock()
+	}
+	atomic.StoreUint32(&verifSrc.v, k)
+}
+
+// VerifProgress is a copy of one Progress.
+type VerifProgress struct {
+	ID              uint64
+	Match, Next     uint64
+	State           int // 0 probe, 1 replicate, 2 snapshot
+	Paused          bool
+	PendingSnapshot uint64
+	RecentActive    bool
+	IsLearner       bool
+	Inflights       int
+}
+
+// VerifEntry is the (index, term, type, data) projection of a log entry.
+type VerifEntry struct {
+	Index, Term uint64
+	Type        int32
+	Data        []byte
+}
+
+// VerifState is a read-only snapshot of the internal state of a node.
+type VerifState struct {
+	ID                        uint64
+	Term, Vote, Lead          uint64
+	State                     int // StateType
+	IsLearner                 bool
+	LeadTransferee            uint64
+	PendingConf               bool
+	ElectionElapsed           int
+	HeartbeatElapsed          int
+	RandomizedElectionTimeout int
+	ElectionTimeout           int
+	CheckQuorum, PreVote      bool
+	Votes                     []VerifVote // sorted by id
+	Prs                       []VerifProgress
+	LearnerPrs                []VerifProgress
+	Committed, Applied        uint64
+	FirstIndex, LastIndex     uint64
+	UnstableOffset            uint64
+	UnstableLen               int
+	HasUnstableSnap           bool
+	UnstableSnapIndex         uint64
+	UnstableSnapTerm          uint64
+	UnstableSnapVoters        []uint64
+	UnstableSnapLearners      []uint64
+	DummyTerm                 uint64 // term at FirstIndex-1 (0 if unknown)
+	Log                       []VerifEntry
+	LogErr                    string
+	NeedAdvance               bool
+	LastSteppedIndex          uint64
+	PendingMsgs               int
+	QueuedMsgs                int
+	QueuedProps               int
+	QueuedTicks               int
+	QueuedConf                int
+}
+
+type VerifVote struct {
+	ID      uint64
+	Granted bool
+}
+
+func verifPrs(m map[uint64]*Progress) []VerifProgress {
+	out := make([]VerifProgress, 0, len(m))
+	for id, p := range m {
+		vp := VerifProgress{ID: id, Match: p.Match, Next: p.Next, State: int(p.State), Paused: p.Paused,
+			PendingSnapshot: p.PendingSnapshot, RecentActive: p.RecentActive, IsLearner: p.IsLearner}
+		if p.ins != nil {
+			vp.Inflights = p.ins.count
+		}
+		out = append(out, vp)
+	}
+	sort.Slice(out, func(i, j int) bool { return out[i].ID < out[j].ID })
+	return out
+}
+
+// VerifRaftState reads the state of the raft instance behind n without going
+// through the node's event loop. n must be a Node returned by StartNode or
+// RestartNode, and the caller must be the goroutine that drives StepNode.
+func VerifRaftState(n Node, withLog bool) (st VerifState, ok bool) {
+	nd, isNode := n.(*node)
+	if !isNode || nd.r == nil {
+		return st, false
+	}
+	r := nd.r
+	st.ID = r.id
+	st.Term, st.Vote, st.Lead = r.Term, r.Vote, r.lead
+	st.State = int(r.state)
+	st.IsLearner = r.isLearner
+	st.LeadTransferee = r.leadTransferee
+	st.PendingConf = r.pendingConf
+	st.ElectionElapsed = r.electionElapsed
+	st.HeartbeatElapsed = r.heartbeatElapsed
+	st.RandomizedElectionTimeout = r.randomizedElectionTimeout
+	st.ElectionTimeout = r.electionTimeout
+	st.CheckQuorum, st.PreVote = r.checkQuorum, r.preVote
+	for id, g := range r.votes {
+		st.Votes = append(st.Votes, VerifVote{ID: id, Granted: g})
+	}
+	sort.Slice(st.Votes, func(i, j int) bool { return st.Votes[i].ID < st.Votes[j].ID })
+	st.Prs = verifPrs(r.prs)
+	st.LearnerPrs = verifPrs(r.learnerPrs)
+	l := r.raftLog
+	st.Committed, st.Applied = l.committed, l.applied
+	st.UnstableOffset = l.unstable.offset
+	st.UnstableLen = len(l.unstable.entries)
+	if s := l.unstable.snapshot; s != nil {
+		st.HasUnstableSnap = true
+		st.UnstableSnapIndex = s.Metadata.Index
+		st.UnstableSnapTerm = s.Metadata.Term
+		st.UnstableSnapVoters = append([]uint64(nil), s.Metadata.ConfState.Nodes...)
+		st.UnstableSnapLearners = append([]uint64(nil), s.Metadata.ConfState.Learners...)
+	}
+	st.NeedAdvance = nd.needAdvance
+	st.LastSteppedIndex = nd.lastSteppedIndex
+	st.PendingMsgs = len(r.msgs)
+	nd.msgQ.mu.Lock()
+	st.QueuedMsgs = int(nd.msgQ.idx) + len(nd.msgQ.snapshot)
+	nd.msgQ.mu.Unlock()
+	nd.propQ.mu.Lock()
+	st.QueuedProps = int(nd.propQ.idx)
+	nd.propQ.mu.Unlock()
+	st.QueuedTicks = len(nd.tickc)
+	st.QueuedConf = len(nd.confc)
+	func() {
+		defer func() {
+			if e := recover(); e != nil {
+				st.LogErr = fmt.Sprint(e)
+			}
+		}()
+		st.FirstIndex, st.LastIndex = l.firstIndex(), l.lastIndex()
+		if t, err := l.term(st.FirstIndex - 1); err == nil {
+			st.DummyTerm = t
+		}
+		if withLog {
+			if st.FirstIndex <= st.LastIndex {
+				ents, err := l.slice(st.FirstIndex, st.LastIndex+1, noLimit)
+				if err != nil {
+					st.LogErr = err.Error()
+				}
+				for _, e := range ents {
+					st.Log = append(st.Log, VerifEntry{Index: e.Index, Term: e.Term, Type: int32(e.Type), Data: e.Data})
+				}
+			}
+		}
+	}()
+	return st, true
+}
+
+// VerifConfPending reports whether a conf change handed to ApplyConfChange is
+// waiting in the node's channel (to be consumed by StepNode or ConfChangedCh).
+func VerifConfPending(n Node) int {
+	if nd, ok := n.(*node); ok {
+		return len(nd.confc)
+	}
+	return 0
+}
+
+// ---------------------------------------------------------------------------
+// raftLog / unstable wrappers for the pure-function correspondence check.
+
+// VerifLog wraps a raftLog over a caller-supplied Storage.
+type VerifLog struct{ l *raftLog }
+
+func VerifNewLog(s Storage, maxNextEntsSize uint64) (vl *VerifLog, perr string) {
+	defer func() {
+		if e := recover(); e != nil {
+			vl, perr = nil, fmt.Sprint(e)
+		}
+	}()
+	return &VerifLog{l: newLogWithSize(s, &verifPanicLogger{}, maxNextEntsSize)}, ""
+}
+
+// verifPanicLogger: silent logger whose Panic* panic (as the default logger does).
+type verifPanicLogger struct{}
+
+func (*verifPanicLogger) Debug(v ...interface{})                   {}
+func (*verifPanicLogger) Debugf(format string, v ...interface{})   {}
+func (*verifPanicLogger) Error(v ...interface{})                   {}
+func (*verifPanicLogger) Errorf(format string, v ...interface{})   {}
+func (*verifPanicLogger) Info(v ...interface{})                    {}
+func (*verifPanicLogger) Infof(format string, v ...interface{})    {}
+func (*verifPanicLogger) Warning(v ...interface{})                 {}
+func (*verifPanicLogger) Warningf(format string, v ...interface{}) {}
+func (*verifPanicLogger) Fatal(v ...interface{})                   { panic(fmt.Sprint(v...)) }
+func (*verifPanicLogger) Fatalf(format string, v ...interface{})   { panic(fmt.Sprintf(format, v...)) }
+func (*verifPanicLogger) Panic(v ...interface{})                   { panic(fmt.Sprint(v...)) }
+func (*verifPanicLogger) Panicf(format string, v ...interface{})   { panic(fmt.Sprintf(format, v...)) }
+
+// VerifSilentLogger returns a Logger that prints nothing and panics on Panic*/Fatal*.
+func VerifSilentLogger() Logger { return &verifPanicLogger{} }
+
+func (v *VerifLog) MaybeAppend(index, logTerm, committed uint64, ents ...pb.Entry) (uint64, bool) {
+	return v.l.maybeAppend(index, logTerm, committed, ents...)
+}
+func (v *VerifLog) Append(ents ...pb.Entry) uint64            { return v.l.append(ents...) }
+func (v *VerifLog) FindConflict(ents []pb.Entry) uint64       { return v.l.findConflict(ents) }
+func (v *VerifLog) UnstableEntries() []pb.Entry               { return v.l.unstableEntries() }
+func (v *VerifLog) NextEnts() []pb.Entry                      { return v.l.nextEnts() }
+func (v *VerifLog) HasNextEnts() bool                         { return v.l.hasNextEnts() }
+func (v *VerifLog) HasMoreNextEnts(a uint64) bool             { return v.l.hasMoreNextEnts(a) }
+func (v *VerifLog) HasPendingSnapshot() bool                  { return v.l.hasPendingSnapshot() }
+func (v *VerifLog) Snapshot() (pb.Snapshot, error)            { return v.l.snapshot() }
+func (v *VerifLog) FirstIndex() uint64                        { return v.l.firstIndex() }
+func (v *VerifLog) LastIndex() uint64                         { return v.l.lastIndex() }
+func (v *VerifLog) CommitTo(i uint64)                         { v.l.commitTo(i) }
+func (v *VerifLog) AppliedTo(i uint64)                        { v.l.appliedTo(i) }
+func (v *VerifLog) StableTo(i, t uint64)                      { v.l.stableTo(i, t) }
+func (v *VerifLog) StableSnapTo(i uint64)                     { v.l.stableSnapTo(i) }
+func (v *VerifLog) LastTerm() uint64                          { return v.l.lastTerm() }
+func (v *VerifLog) Term(i uint64) (uint64, error)             { return v.l.term(i) }
+func (v *VerifLog) Entries(i, max uint64) ([]pb.Entry, error) { return v.l.entries(i, max) }
+func (v *VerifLog) IsUpToDate(lasti, term uint64) bool        { return v.l.isUpToDate(lasti, term) }
+func (v *VerifLog) MatchTerm(i, term uint64) bool             { return v.l.matchTerm(i, term) }
+func (v *VerifLog) MaybeCommit(maxIndex, term uint64) bool    { return v.l.maybeCommit(maxIndex, term) }
+func (v *VerifLog) Restore(s pb.Snapshot)                     { v.l.restore(s) }
+func (v *VerifLog) Slice(lo, hi, max uint64) ([]pb.Entry, error) {
+	return v.l.slice(lo, hi, max)
+}
+func (v *VerifLog) Committed() uint64      { return v.l.committed }
+func (v *VerifLog) Applied() uint64        { return v.l.applied }
+func (v *VerifLog) SetCommitted(i uint64)  { v.l.committed = i }
+func (v *VerifLog) UnstableOffset() uint64 { return v.l.unstable.offset }
+func (v *VerifLog) UnstableSnapIndex() (uint64, uint64, bool) {
+	if s := v.l.unstable.snapshot; s != nil {
+		return s.Metadata.Index, s.Metadata.Term, true
+	}
+	return 0, 0, false
+}
+
+// VerifRocksCached returns RocksStorage's cached first/last index fields.
+func VerifRocksCached(ms *RocksStorage) (first, last uint64) {
+	ms.Lock()
+	first = ms.firstIndex
+	ms.Unlock()
+	return first, ms.lastIndexCached()
+}
+
+// VerifQuorum is raft.quorum() for a voter count.
+func VerifQuorum(nvoters int) int {
+	r := &raft{prs: make(map[uint64]*Progress)}
+	for i := 0; i < nvoters; i++ {
+		r.prs[uint64(i+1)] = &Progress{}
+	}
+	return r.quorum()
+}
+
+// VerifMaybeCommitIndex runs raft.maybeCommit's index selection for the given
+// voter match indexes (the mci handed to raftLog.maybeCommit).
+func VerifMaybeCommitIndex(matches []uint64) uint64 {
+	if len(matches) == 0 {
+		return 0
+	}
+	r := &raft{prs: make(map[uint64]*Progress)}
+	for i, m := range matches {
+		r.prs[uint64(i+1)] = &Progress{Match: m}
+	}
+	buf := make(uint64Slice, len(r.prs))
+	idx := 0
+	for _, p := range r.prs {
+		buf[idx] = p.Match
+		idx++
+	}
+	sort.Sort(&buf)
+	return buf[len(buf)-r.quorum()]
+}
